@@ -9,10 +9,12 @@ VARS = {
     "reserved": ["S", "a#CNF#", "C#CNF#1", "S#SUBS#0", "#STARTUNION#"],
     "lower": ["s", "np", "vp", "x1", "y", "zed"],
     "termlike": ["S", "#TERM#a", "#TERM#b", "Start", "C#CNF#2"],
+    "odd": ["S", "1st", "_tmp", "#n", "Éa", "x-y"],         # variables that are neither lower- nor upper-case initial
 }
 TERMS = {
     "str": ["a", "b", "c", "d", "e"], "int": ["a", "b", "c"], "clash": ["a", "b", "c"],
     "reserved": ["a", "#0UNION#", "#1CONC#"], "lower": ["a", "b", "Cap"], "termlike": ["a", "b", "c"],
+    "odd": ["a", "Éb", "2"],
 }
 VCS = ["str", "str", "str", "int", "clash", "reserved", "lower", "termlike", "inject", "inject"]
 
@@ -47,6 +49,10 @@ def random_case(rng, max_vars=4, max_terms=2, max_prods=7, max_body=4, vcs=None,
         c["perm"] = perm
     if rng.random() < 0.5:
         c["shuffle"] = rng.randrange(1 << 30)
+    if rng.random() < 0.15:
+        c["declare"] = True            # variables and terminals also passed to the constructor (declared alphabet)
+        if rng.random() < 0.3:
+            c["prods"] = []             # nothing but the declared alphabet
     return c
 
 
